@@ -10,7 +10,7 @@ from engine.common import Report, Ob
 from engine.larr import RowArr, instantiate_reductions
 from engine.npshim import NP, det_term, obj
 from engine.pyvc import SR, SB, sreal, sint, z3num, z3bool, mkbool, cur, is_linear
-from props._util import run_fv, section
+from props._util import run_fv, section, sections_parallel
 
 
 def _hint_cell(st, prefix="c", vals=(2, 0, 0, "3/10", 2, 0, "1/10", "1/5", 3)):
@@ -45,13 +45,7 @@ def run():
         "eigen-decomposition (np.linalg.eigh) external: the obligation is that it is applied to the inertia tensor",
     ]
     m = contexts.geometry_ctx()
-    section(rep, "scaled", lambda: _scaled(rep, m))
-    section(rep, "wrapped", lambda: _wrapped(rep, m))
-    section(rep, "swap", lambda: _swap(rep, m))
-    section(rep, "complete", lambda: _complete(rep, m))
-    section(rep, "min", lambda: _minimized(rep, m))
-    section(rep, "inertia", lambda: _inertia(rep, m))
-    section(rep, "com", lambda: _com(rep, m))
+    sections_parallel(rep, [("scaled", lambda r, fn=_scaled: fn(r, m)), ("wrapped", lambda r, fn=_wrapped: fn(r, m)), ("swap", lambda r, fn=_swap: fn(r, m)), ("complete", lambda r, fn=_complete: fn(r, m)), ("min", lambda r, fn=_minimized: fn(r, m)), ("inertia", lambda r, fn=_inertia: fn(r, m)), ("com", lambda r, fn=_com: fn(r, m))])
     return rep
 
 
